@@ -729,3 +729,83 @@ def rule_printfields(crate):
             out.violation("type-exponent:bare-only-if-integer", pf, pl, "the exponent of a dimension expression is never parenthesised")
     out.analysed = {"struct_fields": 3, "power_arm_ifs": len(ifs)}
     return out
+
+
+def rule_readable(crate):
+    """READABLE — the types shown for a generic function use ONE naming of its type parameters.  In the DefineFunction
+    arm of Statement::update_readable_types the signature (parameters, return type) is rendered from `fn_type`
+    instantiated with the user's type-parameter names; every other readable type created in that arm (the where-clause
+    locals) must be rendered from a type derived from that same instantiation — a local rendered from its own type
+    scheme gets the default names A, B, … (`where y: A³ = x³` inside `fn cube<D: Dim>`), which the echoed definition
+    does not declare."""
+    from hirlib import pat_variants, local_of
+
+    out = RuleOut("READABLE", "all readable types of a function definition use the function's own type-parameter names")
+    fn = crate.find_fn("typed_ast::Statement::update_readable_types")
+    f = crate.file_of(fn)
+    arm = None
+    for m in walk(fn["body"]):
+        if m.get("k") == "Match" and str(m.get("src")) == "Normal":
+            for a in m["arms"]:
+                if pat_variants(a["pat"], "crate::typed_ast::Statement") == {"DefineFunction"}:
+                    arm = a
+    if arm is None:
+        out.error("anchor missing: DefineFunction arm of update_readable_types")
+        return out
+    # locals derived from `instantiate_for_printing(Some(type_parameters…))`
+    named = set()
+    for n in walk(arm["body"]):
+        if n.get("k") == "Let" and n.get("init") is not None and any(x.get("k") == "MethodCall" and x["name"] == "instantiate_for_printing" for x in walk(n["init"])):
+            for q in walk(n["pat"]):
+                if q.get("k") == "Binding":
+                    named.add(q["id"])
+    changed = True
+    lets = [n for n in walk(arm["body"]) if n.get("k") == "Let" and n.get("init") is not None]
+    loops = [n for n in walk(arm["body"]) if n.get("k") == "Match" and str(n.get("src")) == "ForLoopDesugar"]
+    while changed:
+        changed = False
+        for n in lets:
+            if any(x.get("k") == "Path" and x["res"].get("r") == "local" and x["res"]["id"] in named for x in walk(n["init"])):
+                for q in walk(n["pat"]):
+                    if q.get("k") == "Binding" and q["id"] not in named:
+                        named.add(q["id"])
+                        changed = True
+        for lp in loops:
+            if any(x.get("k") == "Path" and x["res"].get("r") == "local" and x["res"]["id"] in named for x in walk(lp["scrut"])):
+                for q in walk(lp["arms"][0]["body"]):
+                    if q.get("k") == "Binding" and q["id"] not in named and "Type" in crate.ty(q):
+                        named.add(q["id"])
+                        changed = True
+    calls = [n for n in walk(arm["body"]) if n.get("k") == "Call" and (callee(n) or "").endswith("create_readable_type")]
+    n_ok = 0
+    for i, c in enumerate(calls):
+        cf, cl = crate.loc(fn, c)
+        scheme_arg = c["args"][1] if len(c["args"]) > 1 else {}
+        from_named = any(x.get("k") == "Path" and x["res"].get("r") == "local" and x["res"]["id"] in named for x in walk(scheme_arg))
+        # what is being rendered (assignment target)
+        key = "update_readable_types:DefineFunction:readable#%d" % i
+        tgt = None
+        from errd import parent_map
+    pm = parent_map(arm["body"])
+    for i, c in enumerate(calls):
+        cf, cl = crate.loc(fn, c)
+        scheme_arg = c["args"][1] if len(c["args"]) > 1 else {}
+        from_named = any(x.get("k") == "Path" and x["res"].get("r") == "local" and x["res"]["id"] in named for x in walk(scheme_arg))
+        cur = c
+        tgt = "?"
+        while id(cur) in pm:
+            p = pm[id(cur)]
+            if p.get("k") == "Assign":
+                lp_ = peel_refs(p["l"])
+                tgt = lp_.get("res", {}).get("name") if lp_.get("k") == "Path" else (peel_refs(lp_.get("e", {})).get("res", {}).get("name") if lp_.get("k") == "Unary" else "?")
+                break
+            cur = p
+        key = "update_readable_types:DefineFunction:%s" % (tgt or "?")
+        if from_named:
+            n_ok += 1
+            out.ok(key, cf, cl, "rendered from the function type instantiated with the user's type-parameter names")
+        else:
+            out.violation(key, cf, cl, "`%s` is rendered from a type scheme of its own, instantiated with default names (A, B, …) instead of the function's type-parameter names: `fn cube<D: Dim>(x: D) -> D^3 = y where y = x^3` is echoed with `where y: A³ = x³`, which does not read back" % tgt)
+    out.analysed = {"readable_types_in_arm": len(calls), "named": n_ok}
+    out.floor("readable_types_in_arm", len(calls), 3)
+    return out
